@@ -5,6 +5,9 @@ package main
 // reconnects, and recreates an engine on its store.
 
 import (
+	"bytes"
+	"errors"
+	"strings"
 	"math/rand"
 	"os"
 	"strconv"
@@ -33,10 +36,76 @@ func fileStoreFor(c cfgT, dir string) quickfix.MessageStore {
 
 func init() { Register("pair", &Stream{Gen: genPair, Run: runPair}) }
 
+// One direction of the connection: what a side writes is a byte stream that the engine's stream parser (parser.go, the
+// read loop of connection.go) cuts into frames again, reading it in chunks of varying size; the frames wait, exactly as
+// the parser returned them, until they are delivered (the read loop hands them to the session's channel the same way).
+type wire struct {
+	pending []byte
+	reads   int
+	ps      *quickfix.VerifParser
+	q       []*bytes.Buffer
+}
+
+var errWouldBlock = errors.New("no more bytes for now")
+var readSizes = []int{1, 7, 64, 4096, 13, 300, 2, 1000, 5, 2048}
+
+func (w *wire) Read(b []byte) (int, error) {
+	if len(w.pending) == 0 {
+		return 0, errWouldBlock
+	}
+	n := readSizes[w.reads%len(readSizes)]
+	w.reads++
+	if n > len(w.pending) {
+		n = len(w.pending)
+	}
+	if n > len(b) {
+		n = len(b)
+	}
+	copy(b, w.pending[:n])
+	w.pending = w.pending[n:]
+	return n, nil
+}
+
+func wireOf(msgs [][]byte) *wire {
+	w := &wire{}
+	w.ps = quickfix.VerifNewParser(w)
+	return w.push(msgs)
+}
+
+func (w *wire) push(msgs [][]byte) *wire {
+	if w == nil {
+		return wireOf(msgs)
+	}
+	for _, m := range msgs {
+		w.pending = append(w.pending, m...)
+	}
+	for {
+		f, err := w.ps.ReadMessageBuffer()
+		if err != nil {
+			break // would block (every other error repeats on the next call and shows as missing frames)
+		}
+		w.q = append(w.q, f)
+	}
+	return w
+}
+
+func (w *wire) n() int {
+	if w == nil {
+		return 0
+	}
+	return len(w.q)
+}
+
+func (w *wire) pop() []byte {
+	f := w.q[0]
+	w.q = w.q[1:]
+	return f.Bytes()
+}
+
 type pairRig struct {
 	ca, cb     cfgT
 	a, b       *rig
-	ab, ba     [][]byte
+	ab, ba     *wire
 	up         bool
 	dirA, dirB string // file-store directories ("" = memory store kept across restarts)
 }
@@ -51,7 +120,7 @@ func (p *pairRig) close() {
 }
 
 func (p *pairRig) obs(oa, ob Sx) Sx {
-	return L(oa, ob, Int(len(p.ab)), Int(len(p.ba)), Bool(p.up))
+	return L(oa, ob, Int(p.ab.n()), Int(p.ba.n()), Bool(p.up))
 }
 
 // idle observation of one side: an event that does not touch it
@@ -68,9 +137,9 @@ func (p *pairRig) apply(ev Sx) Sx {
 			return p.obs(p.a.idle(), p.b.idle())
 		}
 		oa := p.a.apply(L(Sym("connect")))
-		p.ab = append([][]byte(nil), p.a.lastOut...)
+		p.ab = wireOf(p.a.lastOut)
 		ob := p.b.apply(L(Sym("connect")))
-		p.ba = append([][]byte(nil), p.b.lastOut...)
+		p.ba = wireOf(p.b.lastOut)
 		p.up = true
 		return p.obs(oa, ob)
 	case "senda", "sendb":
@@ -87,40 +156,38 @@ func (p *pairRig) apply(ev Sx) Sx {
 		// the pair model observes the state after both steps with the second step's logs
 		if r == p.a {
 			if p.up {
-				p.ab = append(p.ab, out...)
+				p.ab = p.ab.push(out)
 			} else {
 				p.ab = nil
 			}
 			return p.obs(o2, p.b.idle())
 		}
 		if p.up {
-			p.ba = append(p.ba, out...)
+			p.ba = p.ba.push(out)
 		} else {
 			p.ba = nil
 		}
 		return p.obs(p.a.idle(), o2)
 	case "dab":
-		if len(p.ab) == 0 {
+		if p.ab.n() == 0 {
 			return p.obs(p.a.idle(), p.b.idle())
 		}
-		m := p.ab[0]
-		p.ab = p.ab[1:]
+		m := p.ab.pop()
 		ob := p.b.apply(L(Sym("raw"), Bytes(m)))
-		p.ba = append(p.ba, p.b.lastOut...)
+		p.ba = p.ba.push(p.b.lastOut)
 		return p.obs(p.a.idle(), ob)
 	case "dba":
-		if len(p.ba) == 0 {
+		if p.ba.n() == 0 {
 			return p.obs(p.a.idle(), p.b.idle())
 		}
-		m := p.ba[0]
-		p.ba = p.ba[1:]
+		m := p.ba.pop()
 		oa := p.a.apply(L(Sym("raw"), Bytes(m)))
-		p.ab = append(p.ab, p.a.lastOut...)
+		p.ab = p.ab.push(p.a.lastOut)
 		return p.obs(oa, p.b.idle())
 	case "timera":
 		oa := p.a.apply(L(Sym("timeout"), l[1]))
 		if p.up {
-			p.ab = append(p.ab, p.a.lastOut...)
+			p.ab = p.ab.push(p.a.lastOut)
 		} else {
 			p.ab = nil
 		}
@@ -128,7 +195,7 @@ func (p *pairRig) apply(ev Sx) Sx {
 	case "timerb":
 		ob := p.b.apply(L(Sym("timeout"), l[1]))
 		if p.up {
-			p.ba = append(p.ba, p.b.lastOut...)
+			p.ba = p.ba.push(p.b.lastOut)
 		} else {
 			p.ba = nil
 		}
@@ -210,7 +277,13 @@ func genOnePair(rng *rand.Rand, steps int) (Sx, Sx) {
 		obs = append(obs, p.apply(ev))
 	}
 	n := 0
-	id := func() Sx { n++; return Str("id" + strconv.Itoa(n)) }
+	id := func() Sx {
+		n++
+		if rng.Intn(4) == 0 {
+			return Str("id" + strconv.Itoa(n) + strings.Repeat("x", 300+rng.Intn(900))) // a long ClOrdID: the stream parser's buffer wraps within one replay
+		}
+		return Str("id" + strconv.Itoa(n))
+	}
 	for i := 0; i < steps; i++ {
 		if !p.up {
 			switch rng.Intn(6) {
@@ -248,11 +321,11 @@ func genOnePair(rng *rand.Rand, steps int) (Sx, Sx) {
 	do(L(Sym("cut")))
 	do(L(Sym("connect")))
 	for round := 0; round < 6; round++ {
-		for k := 0; k < 400 && (len(p.ab) > 0 || len(p.ba) > 0); k++ {
-			if len(p.ab) > 0 {
+		for k := 0; k < 400 && (p.ab.n() > 0 || p.ba.n() > 0); k++ {
+			if p.ab.n() > 0 {
 				do(L(Sym("dab")))
 			}
-			if len(p.ba) > 0 {
+			if p.ba.n() > 0 {
 				do(L(Sym("dba")))
 			}
 		}
